@@ -246,14 +246,32 @@ def run(ctx):
     rule_typecode(ctx)
     rule_resindex(ctx)
     rule_cascade(ctx)
+    rule_type_table(ctx)
+
+
+def rule_type_table(ctx):
+    from rules import _lints
+    R = "TYPE-TABLE"
+    ctx.rule(R, "a filter  (<referencing table>.element_type|et == '<type>') & <...>.element.isin(<net>.<table>.index)  matches rows of "
+                "one element type against the index of that type's own table (contradiction lint over the toolbox)")
+    fis = []
+    for mn in ("pandapower.toolbox.grid_modification", "pandapower.toolbox.data_modification", "pandapower.toolbox.element_selection",
+               "pandapower.toolbox.power_factor", "pandapower.toolbox.result_info"):
+        if ctx.repo.has_module(mn):
+            fis += list(ctx.repo.module(mn).functions.values())
+    n = _lints.type_table_agree(ctx, R, fis)
+    if n < 4:
+        ctx.fail(f"TYPE-TABLE: only {n} typed reference filters found in the toolbox")
 
 
 def variants(repo):
+    _gm = "pandapower/toolbox/grid_modification.py"
     dm = "pandapower/toolbox/data_modification.py"
     gm = "pandapower/toolbox/grid_modification.py"
     es = "pandapower/toolbox/element_selection.py"
     V = Variant
     return [
+        Variant("trafo3w measurements filtered by the trafo index", "pandapower/toolbox/grid_modification.py", in_function("select_subnet", replace_once("(net.measurement.element.isin(p2.trafo3w.index))", "(net.measurement.element.isin(p2.trafo.index))")), "TYPE-TABLE"),
         V("t3 code lost", dm, replace_once('{"line": "l", "trafo": "t", "trafo3w": "t3"}[element_type]', 'element_type[0]'), "switch.et=t3"),
         V("trafo3w switches skipped", dm, replace_once('    if element_type in ["line", "trafo", "trafo3w"]:\n        switch_et', '    if element_type in ["line", "trafo"]:\n        switch_et'), "switch.et=t3"),
         V("measurement restricted again", dm, replace_once('    affected = net.measurement[(net.measurement.element_type == element_type) &\n                               (net.measurement.element.isin(old_indices))]\n    if len(affected):\n        net.measurement.loc[affected.index, "element"] = get_indices(affected.element, lookup)\n',
